@@ -100,6 +100,9 @@ theorem spcXFr_ring (rb : Bool) (rj : Job) (log : List Job) (ab : Option (RingPc
 
 /-! ### the X-weight depends on the push log only through the claimed pop ticket -/
 
+theorem spcReal_congr {log log' : List Job} {x : Nat} (h : log'[x]? = log[x]?) : spReal log' x = spReal log x := by
+  unfold spReal; rw [h]
+
 theorem spcXFr_log (rb : Bool) (rj : Job) {log log' : List Job} {ab : Option (RingPc Job)} (f : Frame)
     (h : ∀ x, lsTicket ab = some x → log'[x]? = log[x]?) :
     spXFr rb rj log' ab f = spXFr rb rj log ab f := by
@@ -107,8 +110,8 @@ theorem spcXFr_log (rb : Bool) (rj : Job) {log log' : List Job} {ab : Option (Ri
   all_goals
     rcases ab with _ | pc
     · rfl
-    · cases pc <;> simp only [spXRet, spXPc, spReal]
-      all_goals rw [h _ rfl]
+    · cases pc <;> simp only [spXRet, spXPc]
+      all_goals rw [spcReal_congr (h _ rfl)]
 
 theorem spcXStk_log (rb : Bool) (rj : Job) {log log' : List Job} (ab : Option (RingPc Job)) (l : List Frame)
     (hab : ∀ x, lsTicket ab = some x → log'[x]? = log[x]?)
@@ -170,7 +173,7 @@ theorem spc_ring_pure (r : Ring Job) (pc : RingPc Job) (c : Frame) (rb : Bool) (
       cases c <;> simp [LW.callerOk, LW.isPopPc, LW.pushCaller] at hcall <;>
         simp [lsePayC, LW.isPopPc, lsRestr, lsNonePc] at hpay <;>
         simp [spAFr, spXFr, lsCapt, lsCaptPc, hpay]
-      all_goals first | omega | (cases d <;> simp_all)
+      all_goals first | omega | (cases d <;> simp_all <;> omega)
     · simp only [lsAfter]
       cases c <;> simp [LW.callerOk, LW.isPopPc, LW.pushCaller] at hcall <;> simp [spAFr, spXFr, lsCapt, lsCaptPc]
   case popCas h =>
